@@ -194,7 +194,9 @@ func (c *Chain) EndBlockCommit() []byte {
 
 // Ctx returns a context on the deliver state (inside a block) or on the last committed state.
 func (c *Chain) Ctx() sdk.Context {
-	return c.App.NewContext(!c.InBlock, c.header())
+	// a private gas meter: the deliver state's own meter is observable (GasUsed of transactions refused before the
+	// ante handler), so the harness must not consume gas on it
+	return c.App.NewContext(!c.InBlock, c.header()).WithGasMeter(sdk.NewInfiniteGasMeter())
 }
 
 func (c *Chain) acctByAddr(a sdk.AccAddress) *Acct {
